@@ -5,6 +5,8 @@ set -e
 cd "$(dirname "$0")"
 mkdir -p .build replays evidence
 export CARGO_NET_OFFLINE=true
-(cd lean && lake build Dmn dmn_driver)
+# the property modules too, so that the first quick run of every check finds its theorems built (lake rebuilds
+# a module only when a source it depends on changed, e.g. a table regenerated from /repo)
+(cd lean && lake build Dmn dmn_driver $(for i in 01 02 03 04 05 06 07 08 09 10 11 12 13 14 15 16 17 18 19 20; do echo Dmn.Props.C$i; done))
 (cd harness && RUSTFLAGS="--cfg dmntk_verif" CARGO_TARGET_DIR="$(pwd)/../.build/target" cargo build --offline)
 echo "setup done"
